@@ -44,6 +44,10 @@ def run(chk, db):
     from . import c15
     chk.rule('HR', 'Handle decoder: every decoded reference is resolved through GetHandle and the result is stored into the destination', minimum=1)
     c15.handle_read_errors(chk, db, 'HR')
+    # re-seating a Variant destination assigns the decoded alternative BY TYPE: the tagged union operations stay tagged
+    from . import c12
+    c12.tagging(chk, db, 'BT')
+    c12.element_assignment(chk, db, 'AE')
     chk.explanation = (
         'For every ReadPayload instance the symbolic successful paths are checked for a reset or complete overwrite of the destination '
         '(kind-specific: clear(), resize+raw read of exactly the resized range, element-by-element coverage with the exact count, '
